@@ -215,3 +215,11 @@ b("pcgrad-schedule-self-not-skipped", ["C18"], "@seed", _os.path.join(_PD, "pcgr
 # PCGrad walking zip(order, G[order]) (see seeded_keep/C18-r6K1): broken twins
 b("pcgrad-zip-misaligned", ["C18"], "@seed", _os.path.join(_PD, "pcgrad-zip-misaligned.diff"), "", "zip(order, G): the k-th visited row is paired with row k of G, not row order[k]")
 b("pcgrad-zip-self-not-skipped", ["C18"], "@seed", _os.path.join(_PD, "pcgrad-zip-self-not-skipped.diff"), "", "row i is projected off itself")
+# Jac over tensor.split(k) with one block of look-ahead (see seeded_keep/C07-r6K1): broken twin
+b("jac-split-oversized", ["C07"], "@seed", _os.path.join(_PD, "jac-split-oversized.diff"), "", "blocks of k + 1 rows")
+# Krum distances through F.pairwise_distance of the broadcast rows
+_CD = 'torch.cdist(matrix, matrix, compute_mode="donot_use_mm_for_euclid_dist")'
+k("krum-pairwise-distance-eps0", ["C16", "C08", "C10", "C11"], A + "krum.py", _CD, "F.pairwise_distance(matrix.unsqueeze(1), matrix.unsqueeze(0), eps=0.0)")
+b("krum-pairwise-distance-default-eps", ["C08", "C16"], A + "krum.py", _CD, "F.pairwise_distance(matrix.unsqueeze(1), matrix.unsqueeze(0))", "eps=1e-6 added to every coordinate of the differences")
+# a transform memoising constructor data is still a function of its input (C15 S); the cached row blocks of seeded/C15-r6B are not
+k("jac-memoised-lengths", ["C15", "C01", "C07", "C13"], "@seed", _os.path.join(_PD, "jac-memoised-lengths.diff"), "")
